@@ -281,50 +281,95 @@ class CliRules:
                 st.mem[k] = ('sstr', (old[1] if old is not None and old[0] == 'sstr' else (('?',),)) + sparts(I, st, src))
             return [(st, dst)]
 
-        def m_snprintf_str(I, st, fr, n, this, args, an):
-            r = models.m_snprintf(I, st, fr, n, this, args, an)
-            dst = args[0]
-            k = cbuf_key(dst)
-            fmt = args[2] if len(args) > 2 else None
-            if k is not None:
-                parts = (('?',),)
-                if fmt is not None and fmt[0] == 'p' and isinstance(fmt[1], tuple) and fmt[1][0] == 'str':
-                    text, rest, parts, ok = fmt[1][1], list(args[3:]), (), True
-                    i = 0
-                    lit = ''
-                    while i < len(text):
-                        if text[i] == '%' and i + 1 < len(text) and text[i + 1] == 's' and rest:
-                            if lit:
-                                parts += (lit,)
-                                lit = ''
-                            parts += sparts(I, st, rest.pop(0))
-                            i += 2
-                        elif text[i] == '%' and i + 1 < len(text) and text[i + 1] == '%':
-                            lit += '%'
-                            i += 2
-                        elif text[i] == '%':
-                            ok = False
-                            break
-                        else:
-                            lit += text[i]
-                            i += 1
+        def fmt_parts(I, st, fmt, rest):
+            """parts of the string a printf-style call produces, for formats made of text and %s only; None otherwise"""
+            if fmt is None or fmt[0] != 'p' or not (isinstance(fmt[1], tuple) and fmt[1][0] == 'str'):
+                return None
+            text, rest, parts = fmt[1][1], list(rest), ()
+            i, lit = 0, ''
+            while i < len(text):
+                if text[i] == '%' and i + 1 < len(text) and text[i + 1] == 's' and rest:
                     if lit:
                         parts += (lit,)
-                    if not ok:
-                        parts = (('?',),)
-                    else:
-                        # a bounded write may cut the name short: what is dropped is a suffix
-                        parts = parts + (('$maybe-truncated', show(args[1])),)
-                st.mem[k] = ('sstr', parts)
+                        lit = ''
+                    parts += sparts(I, st, rest.pop(0))
+                    i += 2
+                elif text[i] == '%' and i + 1 < len(text) and text[i + 1] == '%':
+                    lit += '%'
+                    i += 2
+                elif text[i] == '%':
+                    return None
+                else:
+                    lit += text[i]
+                    i += 1
+            if lit:
+                parts += (lit,)
+            return parts
+
+        def m_snprintf_str(I, st, fr, n, this, args, an):
+            r = models.m_snprintf(I, st, fr, n, this, args, an)
+            k = cbuf_key(args[0])
+            if k is not None:
+                parts = fmt_parts(I, st, args[2] if len(args) > 2 else None, args[3:])
+                # a bounded write may cut the name short: what is dropped is a suffix
+                st.mem[k] = ('sstr', (('?',),) if parts is None else parts + (('$maybe-truncated', show(args[1])),))
             return r
 
+        def m_sprintf_str(I, st, fr, n, this, args, an):
+            r = models.m_sprintf(I, st, fr, n, this, args, an)
+            k = cbuf_key(args[0])
+            if k is not None:
+                parts = fmt_parts(I, st, args[1] if len(args) > 1 else None, args[2:])
+                st.mem[k] = ('sstr', (('?',),) if parts is None else parts)
+            return r
+
+        def m_scanf_str(I, st, fr, n, this, args, an):
+            # "%<w>s" into a char buffer: the buffer holds one word typed by the user, at most w characters (unbounded without w)
+            fmt = args[0] if args else None
+            text = fmt[1][1] if fmt is not None and fmt[0] == 'p' and isinstance(fmt[1], tuple) and fmt[1][0] == 'str' else None
+            rest = list(args[1:])
+            if text is not None:
+                import re as _re
+                for m_ in _re.finditer(r'%(\*?)(\d*)(l{0,2}|h{0,2})([sdcuxfi]|\[[^\]]*\])', text):
+                    if m_.group(1) == '*':
+                        continue
+                    if not rest:
+                        break
+                    dst = rest.pop(0)
+                    if m_.group(4) == 's' and dst[0] == 'p':
+                        k = cbuf_key(dst)
+                        I.emit('strwrite', st, node=n, dst=dst, args=args, argnodes=an, bounded=C(int(m_.group(2)) + 1) if m_.group(2) else None)
+                        models.write_region(I, st, dst, TOP, 'scanf', n) if models.region_of(dst) else None
+                        if k is not None:
+                            tok = ('$typed', n['_id'])
+                            st.mem[k] = ('sstr', (tok,))
+                            st.comps[('maxlen', tok)] = int(m_.group(2)) if m_.group(2) else None
+                    elif dst[0] == 'p':
+                        if models.region_of(dst):
+                            models.write_region(I, st, dst, TOP, 'scanf', n)
+                        else:
+                            I.store(st, (dst[1], dst[2]), TOP, node=n)
+                return [(st, TOP)]
+            return models.m_scanf(I, st, fr, n, this, args, an)
+
+        def m_str_sub(I, st, fr, n, this, args, an):
+            # substr of a string: some contiguous part of it (kept as a marker over the original parts)
+            l = oloc(this)
+            p_ = st.mem.get((l[0], l[1] + ('$str',))) if l is not None else None
+            parts = p_[1] if p_ is not None and p_[0] == 'sstr' else (('?',),)
+            tmp = (('tmp', n['_id'], fr.ctx), ())
+            st.mem[(tmp[0], ('$str',))] = ('sstr', (('$part-of', parts),))
+            return [(st, ('obj', tmp))]
+
+        mdl.update({'scanf': m_scanf_str, 'std::basic_string::substr': m_str_sub, 'std::basic_string::find_last_of': m_file_size,
+                    'std::basic_string::find': m_file_size, 'std::basic_string::rfind': m_file_size})
         mdl.update({'getopt_long': m_getopt, 'strlog': m_strlog, 'is_valid_b64': m_valid, 'base64_to_hex': m_noop_true,
                     'hex_to_base64': m_noop_true, 'atoi': m_atoi, '__errno_location': m_errno_loc, 'strtol': m_strtol, 'strtoul': m_strtol, 'std::vector::size': m_vecsize,
                     'std::basic_string::basic_string': m_str_ctor, 'std::operator+': m_str_plus,
                     'std::basic_string::operator=': m_str_assign, 'std::basic_string::operator+=': m_str_append, 'std::basic_string::append': m_str_append,
                     'std::basic_string::clear': m_str_clear, 'std::basic_string::c_str': m_str_cstr,
                     'std::filesystem::file_size': m_file_size, 'memcpy': m_memcpy_str, 'strcpy': m_strcpy_str, 'strcat': m_strcat_str,
-                    'snprintf': m_snprintf_str})
+                    'snprintf': m_snprintf_str, 'sprintf': m_sprintf_str})
         return mdl
 
     # ------------------------------------------------------------------ parser exploration
@@ -502,6 +547,101 @@ class CliRules:
                         nin += 1
                         rec.ob('R02.f', 'R02.f@%s::input-opened-read-only' % fkey(fn), m in ('rb', 'r'), nloc(n), 'input file opened with mode %r' % m)
         rec.count('R02.f input opens', nin, 1)
+
+    # ------------------------------------------------------------------ interactive front end: default output names
+    def interactive(self):
+        """R12.g: in the dialogue front end every file opened for writing under a name the program made up is named
+        <what the user typed for the input, or a part of it> + <non-empty literal suffix>, and a length-bounded formatting call
+        cannot cut the whole suffix off.  The dialogue's helper functions (menus, key entry) are stubbed."""
+        prog, rec = self.prog, self.rec
+        cands = [g for g in prog.functions.values() if g['q'] == 'get_v_mod1' and g.get('body')]
+        if len(cands) != 1:
+            rec.ob('R12.g', 'R12.g@interactive-front-end', None, '', 'dialogue entry get_v_mod1 not found')
+            return
+        f = cands[0]
+        where = '%s:%s' % (f['file'], f['line'])
+        mdl = self.mk_models()
+
+        def m_void(I, st, fr, n, this, args, an):
+            return [(st, ('void',))]
+
+        def m_ptr(I, st, fr, n, this, args, an):
+            return [(st, ('ptop', 'key', False))]
+
+        def m_num(I, st, fr, n, this, args, an):
+            return [(st, R(0, 255))]
+        # helpers of the dialogue that neither open files nor build names (found by what they return / take)
+        for g in prog.functions.values():
+            if g['file'] != f['file'] or g['id'] == f['id'] or not g.get('body'):
+                continue
+            opens = any(x['k'] == 'CallExpr' and x.get('callee', {}).get('q') == 'fopen' for x in walk(g['body']))
+            if opens:
+                continue
+            rt = prog.type(g['ret'])
+            if rt.get('k') == 'ptr':
+                mdl[g['q']] = m_ptr
+            elif rt.get('k') in ('int', 'bool'):
+                mdl[g['q']] = m_num
+            elif rt.get('k') == 'void':
+                mdl[g['q']] = m_void
+        for q in ('version', 'help', 'printf', 'puts', 'stat', 'strlog'):
+            mdl.setdefault(q, m_void)
+        mdl['printf'] = m_void
+        mdl['stat'] = lambda I, st, fr, n, this, args, an: [(st, C(0))]
+        opens = []
+
+        class Lst:
+            def on_fopen(self, I, st, node, root, mode, path):
+                nm = path
+                if path[0] == 'p' and not (isinstance(path[1], tuple) and path[1][0] == 'str'):
+                    p_ = st.mem.get((path[1], path[2][:-1] + (0, '$str') if path[2] and isinstance(path[2][-1], int) else path[2] + ('$str',)))
+                    if p_ is not None and p_[0] == 'sstr':
+                        nm = ('cstr', p_[1])
+                opens.append((node, mode, nm, dict((k[1], v) for k, v in st.comps.items() if isinstance(k, tuple) and k and k[0] == 'maxlen')))
+        I = interp.Interp(prog, listeners=[Lst()], models=mdl)
+        st = interp.State()
+        st.comps['diag'] = False
+        st.comps['lockset'] = frozenset()
+        try:
+            I.run(f, st, args=[])
+        except interp.Budget as e:
+            rec.ob('R12.g', 'R12.g@%s::default-output-names' % fkey(f), None, where, 'dialogue front end not analysed: %s' % e)
+            return
+        rec.saw(I)
+        inputs = [o for o in opens if o[1].startswith('r') and '+' not in o[1]]
+        typed_in = set()
+        for node, mode, nm, ml in inputs:
+            if nm[0] == 'cstr':
+                typed_in |= {q for q in nm[1] if isinstance(q, tuple) and q and q[0] == '$typed'}
+        n = 0
+        for node, mode, nm, ml in opens:
+            if not (mode.startswith('w') or '+' in mode or mode.startswith('a')):
+                continue
+            if nm[0] != 'cstr':
+                rec.ob('R12.g', 'R12.g@%s::default-output-names' % fkey(f), None, nloc(node), 'name of the file opened "%s" is not followed' % mode)
+                continue
+            parts = nm[1]
+            trunc = [q for q in parts if isinstance(q, tuple) and q and q[0] == '$maybe-truncated']
+            body = [q for q in parts if not (isinstance(q, tuple) and q and q[0] == '$maybe-truncated')]
+            if len(body) == 1 and isinstance(body[0], tuple) and body[0][0] == '$typed' and body[0] not in typed_in:
+                continue        # a name the user typed for the output, as such: the user's choice
+            n += 1
+            head = body[0] if body else None
+            base = head[1][0] if isinstance(head, tuple) and head and head[0] == '$part-of' and head[1] else head
+            from_input = isinstance(base, tuple) and base and base[0] == '$typed' and base in typed_in
+            lits = ''.join(q for q in body[1:] if isinstance(q, str))
+            ok = from_input and bool(lits) and all(isinstance(q, str) for q in body[1:])
+            det = 'name = %s' % ' + '.join(repr(q) if isinstance(q, str) else ('input name' if q is head and from_input else str(q)) for q in body)
+            if ok and trunc:
+                bound = trunc[0][1]
+                mx = ml.get(base)
+                keep = bound.isdigit() and mx is not None and mx < int(bound) - 1
+                ok = keep
+                det += '; written with a bound of %s bytes, the input name has at most %s characters: %s' % (
+                    bound, mx if mx is not None else 'an unbounded number of', 'at least one suffix character always survives' if keep else 'the WHOLE suffix can be cut off, the output name then EQUALS the input name')
+            rec.ob('R12.g', 'R12.g@%s::default-output-names' % fkey(f), ok, nloc(node),
+                   'file opened "%s" under a name made by the program: %s' % (mode, det))
+        rec.count('R12.g program-made output names in the dialogue', n, 2)
 
     # ------------------------------------------------------------------ exit status mapping
     def exit_mapping(self):
